@@ -37,6 +37,7 @@ type Phase struct {
 	Env        []string           // extra environment of the phase's worker processes
 	FineCrumbs bool               // write the breadcrumb after every choice (scheduled runs: a death is pinned to the schedule)
 	Gate       bool               // the body calls c.Gate(): shard by hash of the leading choices
+	Weight     float64            // share of the check\'s time budget relative to the other phases (0 = 1)
 	Race       bool               // run this phase in the race-detector build of the checker ($VERIF_RACE_BIN)
 	Rule       string             // how cases are enumerated, what makes an outcome distinct
 }
@@ -288,6 +289,13 @@ func Main() {
 	}
 }
 
+func weightOf(p *Phase) float64 {
+	if p.Weight > 0 {
+		return p.Weight
+	}
+	return 1
+}
+
 func findPhase(ck *Check, tier universe.Tier, name string) *Phase {
 	for _, p := range ck.Phases(tier) {
 		if p.Name == name {
@@ -514,8 +522,16 @@ func runCheck(ck *Check, tier universe.Tier, tierS string, nworkers int, budget 
 			}
 		}
 		remaining := time.Until(deadline)
-		// a phase may use what is left, minus a reserve for each later phase
-		per := remaining - time.Duration(len(phases)-pi-1)*8*time.Second
+		// a phase may use its weighted share of what is left (unused time flows to the later phases)
+		var wsum float64
+		for _, q := range phases[pi:] {
+			wsum += weightOf(q)
+		}
+		per := time.Duration(float64(remaining) * weightOf(ph) / wsum)
+		if tierS == "quick" {
+			// quick: phases normally finish well inside the budget; let one use what is left minus a reserve
+			per = remaining - time.Duration(len(phases)-pi-1)*8*time.Second
+		}
 		if per < 8*time.Second {
 			per = 8 * time.Second
 		}
